@@ -778,6 +778,12 @@ void MEDDLY::forest::createReducedNode(unpacked_node *un, edge_value &ev,
     if (1==nnz && isIdentityReduced() && un->getLevel() < 0) {
 
         //
+        // A variable with a single value: the node can only be
+        // entered from index 0, whether or not the caller knows.
+        //
+        if (1 == getLevelSize(un->getLevel())) in = 0;
+
+        //
         // Check identity pattern
         //
         if (un->isSparse()) {
